@@ -143,3 +143,25 @@ Definition obytes_eqb (x y : option bytes) : bool :=
   end.
 
 Definition router_ok (c : router_case) : bool := obytes_eqb (route (fst c)) (snd c).
+
+(* ---------------------------------------------------------------- (d) listener with several connections *)
+
+(* case: the listener's table (connection IDs and tracked address strings -> connection index),
+   source address string, connection ID on the record, index of the connection whose keys made the
+   record (99 = none: altered ID), observed reader (None = nobody read the payload).
+   The connection handed the datagram reads it iff it owns the keys. *)
+Definition listener_case := (list (bytes * N) * bytes * bytes * N * option N)%type.
+
+Definition oN_eqb (x y : option N) : bool :=
+  match x, y with
+  | None, None => true
+  | Some a, Some b => a =? b
+  | _, _ => false
+  end.
+
+Definition listener_ok (c : listener_case) : bool :=
+  let '(conns, src, cid, owner, obs) := c in
+  match get_conn_id conns src (Some cid) with
+  | Some k => oN_eqb obs (if k =? owner then Some k else None)
+  | None => oN_eqb obs None
+  end.
